@@ -1,44 +1,54 @@
 (* C10 driver: evaluates the extracted session / context / zero-share model on the
    cases written by the Go harness, one case per line.
 
-   The three hash parameters of the model are answered from a table carried by the
-   case line (filled by the harness with Go's own blake2b / sha3).  A query that is
-   not in the table is answered with zeros of the right length and recorded; if any
-   query was missing the driver prints  "Q <id> <queries>"  instead of a result and
-   the harness re-submits the case with the answers added (the nesting depth of the
-   hashes bounds the number of passes). *)
+   The three hash parameters of the model are an ORACLE answered by the harness with
+   Go's own blake2b / sha3: when the model applies a hash to an input it has not seen
+   in this case, the driver prints  "Q <query>"  on stdout, flushes, and reads the
+   answer (hex) from the next stdin line.  After the last query of a case it prints
+   "R <id> <observables>". *)
 open Model
 open Helpers
 
-let missing : (string, unit) Hashtbl.t = Hashtbl.create 16
-let missing_order : string list ref = ref []
-let table : (string, string) Hashtbl.t = Hashtbl.create 64
+let table : (string, Big_int_Z.big_int list) Hashtbl.t = Hashtbl.create 256
 
-let zeros n = List.init n (fun _ -> z_of_int 0)
+let hexdigits = "0123456789abcdef"
+let fast_hex (l : Big_int_Z.big_int list) : string =
+  if l = [] then "-" else begin
+    let b = Buffer.create 128 in
+    List.iter (fun x -> let v = z_to_int x in
+                Buffer.add_char b hexdigits.[(v lsr 4) land 15];
+                Buffer.add_char b hexdigits.[v land 15]) l;
+    Buffer.contents b
+  end
 
-let ask key n =
+let hexval c = match c with
+  | '0'..'9' -> Char.code c - 48
+  | 'a'..'f' -> Char.code c - 87
+  | 'A'..'F' -> Char.code c - 55
+  | _ -> failwith "bad hex"
+let fast_unhex (s : string) : Big_int_Z.big_int list =
+  if s = "-" || s = "" then [] else begin
+    let n = String.length s / 2 in
+    let rec go i acc = if i < 0 then acc
+      else go (i - 1) (z_of_int (hexval s.[2*i] * 16 + hexval s.[2*i+1]) :: acc) in
+    go (n - 1) []
+  end
+
+let ask key =
   match Hashtbl.find_opt table key with
-  | Some o -> bytes_of_hex o
+  | Some o -> o
   | None ->
-    if not (Hashtbl.mem missing key) then begin
-      Hashtbl.replace missing key ();
-      missing_order := key :: !missing_order
-    end;
-    zeros n
+    print_string "Q "; print_string key; print_newline ();
+    let a = fast_unhex (input_line stdin) in
+    Hashtbl.replace table key a; a
 
-let com k i = ask (String.concat "," ["c"; hex_of_bytes k; hex_of_bytes i]) 32
-let h512 i = ask (String.concat "," ["h"; hex_of_bytes i]) 64
+let com k i = ask (String.concat "," ["c"; fast_hex k; fast_hex i])
+let h512 i = ask (String.concat "," ["h"; fast_hex i])
 let xof s i off n =
   if Big_int_Z.sign_big_int n = 0 then []
-  else ask (String.concat "," ["x"; hex_of_bytes s; hex_of_bytes i; z_to_string off; z_to_string n]) (z_to_int n)
+  else ask (String.concat "," ["x"; fast_hex s; fast_hex i; z_to_string off; z_to_string n])
 
-let load_table (tbl : string) =
-  Hashtbl.reset table; Hashtbl.reset missing; missing_order := [];
-  if tbl <> "-" then
-    List.iter (fun e ->
-        match String.rindex_opt e ':' with
-        | Some k -> Hashtbl.replace table (String.sub e 0 k) (String.sub e (k + 1) (String.length e - k - 1))
-        | None -> failwith "bad table entry") (split_on ';' tbl)
+let load_table (_ : string) = Hashtbl.reset table
 
 let ids_of sep s = if s = "-" || s = "" then [] else List.map z_of_string (String.split_on_char sep s)
 let ids_str l = String.concat "," (List.map z_to_string l)
@@ -57,9 +67,9 @@ let verdict_str = function
 let n32 = z_of_int 32
 
 let ctx_fields (label : bytes) (c : context) : string =
-  let tx = match ctx_extract xof c label n32 with Some b -> hex_of_bytes b | None -> "ERR" in
-  let seeds = List.map (fun (peer, s) -> z_to_string peer ^ ":" ^ hex_of_bytes (seed_read xof s n32)) c.cx_seeds in
-  String.concat "/" [hex_of_bytes c.cx_sid; tx; ids_str c.cx_quorum; String.concat "+" seeds]
+  let tx = match ctx_extract xof c label n32 with Some b -> fast_hex b | None -> "ERR" in
+  let seeds = List.map (fun (peer, s) -> z_to_string peer ^ ":" ^ fast_hex (seed_read xof s n32)) c.cx_seeds in
+  String.concat "/" [fast_hex c.cx_sid; tx; ids_str c.cx_quorum; String.concat "+" seeds]
 
 let rec apply_path (c : context) (path : Big_int_Z.big_int list list) : context option =
   match path with
@@ -67,10 +77,7 @@ let rec apply_path (c : context) (path : Big_int_Z.big_int list list) : context 
   | q :: r -> (match sub_context xof c q with None -> None | Some c' -> apply_path c' r)
 
 let finish (cid : string) (out : string list) =
-  if !missing_order <> [] then
-    Printf.printf "Q %s %s\n" cid (String.concat ";" (List.rev !missing_order))
-  else
-    Printf.printf "R %s %s\n" cid (String.concat " " out)
+  Printf.printf "R %s %s\n" cid (String.concat " " out); flush stdout
 
 let rec parties (toks : string list) acc =
   match toks with
@@ -84,23 +91,23 @@ let () =
     match String.split_on_char ' ' line with
     | "S" :: cid :: tbl :: label :: subs :: rest ->
       load_table tbl;
-      let label = bytes_of_hex label in
+      let label = fast_unhex label in
       let paths = if subs = "-" then [] else
           List.map (fun p -> List.map (ids_of '.') (String.split_on_char '/' p)) (String.split_on_char '|' subs) in
       let out = ref [] in
       let add k v = out := (k ^ "=" ^ v) :: !out in
       List.iter (fun (id, q, tape, undec, b1, b2, u2, u3) ->
-          let inb1 = parse_inbox (function [cc; ck] -> { r1_ccom = bytes_of_hex cc; r1_ck = bytes_of_hex ck } | _ -> failwith "b1") b1 in
-          let inb2 = parse_inbox (function [cc; cw] -> { r2_cc = bytes_of_hex cc; r2_cw = bytes_of_hex cw } | _ -> failwith "b2") b2 in
-          let inu2 = parse_inbox (function [c] -> (bytes_of_hex c : r2u) | _ -> failwith "u2") u2 in
-          let inu3 = parse_inbox (function [c; w] -> { r3_pc = bytes_of_hex c; r3_pw = bytes_of_hex w } | _ -> failwith "u3") u3 in
-          let r = party_run com h512 (z_of_string id) (ids_of ',' q) (bytes_of_hex tape) (z_of_string undec) inb1 inb2 inu2 inu3 in
+          let inb1 = parse_inbox (function [cc; ck] -> { r1_ccom = fast_unhex cc; r1_ck = fast_unhex ck } | _ -> failwith "b1") b1 in
+          let inb2 = parse_inbox (function [cc; cw] -> { r2_cc = fast_unhex cc; r2_cw = fast_unhex cw } | _ -> failwith "b2") b2 in
+          let inu2 = parse_inbox (function [c] -> (fast_unhex c : r2u) | _ -> failwith "u2") u2 in
+          let inu3 = parse_inbox (function [c; w] -> { r3_pc = fast_unhex c; r3_pw = fast_unhex w } | _ -> failwith "u3") u3 in
+          let r = party_run com h512 (z_of_string id) (ids_of ',' q) (fast_unhex tape) (z_of_string undec) inb1 inb2 inu2 inu3 in
           add (id ^ ".v") (verdict_str r.pr_verdict);
           add (id ^ ".vr") (z_to_string r.pr_round);
-          (match r.pr_r1 with Some m -> add (id ^ ".r1") (hex_of_bytes m.r1_ccom ^ ":" ^ hex_of_bytes m.r1_ck) | None -> ());
-          (match r.pr_r2b with Some m -> add (id ^ ".r2b") (hex_of_bytes m.r2_cc ^ ":" ^ hex_of_bytes m.r2_cw) | None -> ());
-          List.iter (fun (to_, (m : r2u)) -> add (id ^ ".r2u." ^ z_to_string to_) (hex_of_bytes m)) r.pr_r2u;
-          List.iter (fun (to_, m) -> add (id ^ ".r3u." ^ z_to_string to_) (hex_of_bytes m.r3_pc ^ ":" ^ hex_of_bytes m.r3_pw)) r.pr_r3u;
+          (match r.pr_r1 with Some m -> add (id ^ ".r1") (fast_hex m.r1_ccom ^ ":" ^ fast_hex m.r1_ck) | None -> ());
+          (match r.pr_r2b with Some m -> add (id ^ ".r2b") (fast_hex m.r2_cc ^ ":" ^ fast_hex m.r2_cw) | None -> ());
+          List.iter (fun (to_, (m : r2u)) -> add (id ^ ".r2u." ^ z_to_string to_) (fast_hex m)) r.pr_r2u;
+          List.iter (fun (to_, m) -> add (id ^ ".r3u." ^ z_to_string to_) (fast_hex m.r3_pc ^ ":" ^ fast_hex m.r3_pw)) r.pr_r3u;
           (match r.pr_ctx with
            | None -> ()
            | Some c ->
@@ -113,13 +120,12 @@ let () =
       finish cid (List.rev !out)
     | ["N"; cid; tbl; label; id; q; cs; pw] ->
       load_table tbl;
-      let pairwise = parse_inbox (function [s] -> bytes_of_hex s | _ -> failwith "pw") pw in
-      let r = match new_context h512 (z_of_string id) (ids_of ',' q) (bytes_of_hex cs) pairwise with
+      let pairwise = parse_inbox (function [s] -> fast_unhex s | _ -> failwith "pw") pw in
+      let r = match new_context h512 (z_of_string id) (ids_of ',' q) (fast_unhex cs) pairwise with
         | None -> "none"
-        | Some c -> ctx_fields (bytes_of_hex label) c in
+        | Some c -> ctx_fields (fast_unhex label) c in
       finish cid ["ctx=" ^ r]
     | ["Z"; cid; q; ids; rs] ->
-      Hashtbl.reset missing; missing_order := [];
       let q = z_of_hex q in
       let ids = ids_of ',' ids in
       let tbl = Hashtbl.create 16 in
@@ -131,5 +137,5 @@ let () =
         | Some v -> v
         | None -> failwith "R miss" in
       let shares = List.map (fun i -> z_to_string i ^ ":" ^ hex_of_z (zq_zero_share q r ids i)) ids in
-      Printf.printf "R %s %s sum=%s\n" cid (String.concat "," shares) (hex_of_z (zq_sum_shares q r ids))
+      Printf.printf "R %s %s sum=%s\n" cid (String.concat "," shares) (hex_of_z (zq_sum_shares q r ids)); flush stdout
     | _ -> failwith ("bad line " ^ line))
